@@ -38,7 +38,7 @@ def run_one(m, tier):
                 rp = l.split("replay=")[1].strip()
                 if os.path.exists(rp) and "/alt/replays/" in rp:
                     os.remove(rp)
-        return (name, prop, verdict, dt, "\n".join(lines[:3]) if verdict != "SURVIVED" else p.stdout[-800:])
+        return (name, prop, verdict, dt, "\n".join(lines[:3]) if verdict == "KILLED" else p.stdout[-1500:])
     finally:
         shutil.rmtree(d, ignore_errors=True)
         # drop the mutant's binary
